@@ -56,15 +56,24 @@ pub async fn main() -> anyhow::Result<()> {
         Some(host) => format!("{}:{}", host, config.port).parse()?,
         None => SocketAddrV4::new(Ipv4Addr::LOCALHOST, config.port),
     };
-    if config.mode.enable_udp() {
+    // the client has the modes tcp, udp and tcp_and_udp
+    if config.mode.enable_quic() {
+        anyhow::bail!("mode {} is not a client mode", config.mode);
+    }
+    let udp = if config.mode.enable_udp() {
         let socket = UdpSocket::bind(listen_addr).await?;
         info!("Listening UDP on: {}", socket.local_addr()?);
-        tokio::spawn(transfer_udp(socket, current.clone()));
-    }
+        Some(tokio::spawn(transfer_udp(socket, current.clone())))
+    } else {
+        None
+    };
     if config.mode.enable_tcp() {
         let listener = TcpListener::bind(listen_addr).await?;
         info!("Listening TCP on: {}", listener.local_addr()?);
         transfer_tcp(listener, current).await;
+    } else if let Some(udp) = udp {
+        // mode udp: the datagram relay is the whole service
+        udp.await?;
     }
     Ok(())
 }
